@@ -73,10 +73,20 @@ Permute(s, perm) == [q \in 1..Len(perm) |-> s[perm[q]]]
 KeyOrder(N, a, b) == SetToSortSeq(1..N, LAMBDA x, y : ((a * x + b) % 101) < ((a * y + b) % 101))
 
 (* C23 clauses *)
-(* the selected indices name each point of the mesh g exactly once *)
+PtSet(pts) == {pts[i] : i \in 1..Len(pts)}
+NoDuplicates(pts) == Cardinality(PtSet(pts)) = Len(pts)
+(* a point of [0,1)^3 that lies on the grid g is a point of the Gamma-centred mesh g, hence: the points of `pts` that lie
+   on g are the whole mesh g iff there are NPts(g) distinct ones.  This is the property-level meaning of "the selection
+   for the mesh g is defined" (otherwise the mesh is incomplete and must be rejected); g need not divide DEN *)
+OnGridPts(pts, g, DEN) == {p \in PtSet(pts) : OnGrid(p, g, DEN)}
+SelectionDefined(pts, g, DEN) == g[1] >= 1 /\ g[2] >= 1 /\ g[3] >= 1 /\ Cardinality(OnGridPts(pts, g, DEN)) = NPts(g)
+(* the selected indices name each point of the mesh g exactly once (any order, any of several copies of a point) *)
 EachMeshPointOnce(sel, pts, g, DEN) ==
    /\ \A q \in 1..Len(sel) : sel[q] + 1 \in 1..Len(pts) /\ OnGrid(pts[sel[q] + 1], g, DEN)
    /\ \A q, r \in 1..Len(sel) : q # r => pts[sel[q] + 1] # pts[sel[r] + 1]
-   /\ {pts[sel[q] + 1] : q \in 1..Len(sel)} = {MeshSeq(g, DEN)[q] : q \in 1..NPts(g)}
-IsCompleteMesh(pts, n, DEN) == {pts[i] : i \in 1..Len(pts)} = {MeshSeq(n, DEN)[q] : q \in 1..NPts(n)}
+   /\ Len(sel) = NPts(g)
+(* n divides DEN in every direction *)
+IsCompleteMesh(pts, n, DEN) == PtSet(pts) = {MeshSeq(n, DEN)[q] : q \in 1..NPts(n)}
+(* the points are exactly the Gamma-centred mesh of their own least-common-denominator grid *)
+IsSomeMesh(pts, DEN) == LET L == LcmGrid(pts, DEN) IN SelectionDefined(pts, << L[1], L[2], L[3] >>, DEN)
 =============================================================================
